@@ -5,7 +5,10 @@ CONFIG = dict(
     technique="rapid state-machine test (t.Repeat) against a two-layer reference model + native fuzzing of the same property",
     level_text=("Operation histories over flushable.Wrap(memorydb) and flushable.NewLazy are drawn by rapid from a small colliding "
                 "key alphabet and compared, after every operation, with an independent two-layer model (underlying map + overlay "
-                "of puts and tombstones); the thorough tier adds 16 differently seeded processes and a coverage-guided fuzz campaign."),
+                "of puts and tombstones); the thorough tier adds 16 differently seeded processes and a coverage-guided fuzz campaign. "
+            "Iterator handles are part of the history: iterators of the store, of its snapshots and of a second independent "
+            "flushable store are kept open, released early or when exhausted, and released AGAIN at any later point while other "
+            "iterators are live and are stepped and compared with the model afterwards."),
     level_note=NOTE_COMMON,
     rule=("A case is one history (about 50 actions: put, delete, batch put/delete/write/reset/replay, get/has, iterate(prefix,start), "
           "snapshot take/read/iterate/release, iterators kept open across later operations, flush, drop-not-flushed, direct writes to "
@@ -15,7 +18,12 @@ CONFIG = dict(
           "(changes only on Flush). Fresh iterators and snapshot reads must equal the model exactly; an iterator that is used after "
           "a later write/flush/drop only has to be strictly ascending, inside its prefix/start and to report values the key really "
           "had since the iterator was created. Non-trivial = the history contains an iteration whose range includes an underlying "
-          "key shadowed by a tombstone, or a snapshot read after a later flush; distinct by hash of the operation history."),
+          "key shadowed by a tombstone, or a snapshot read after a later flush; distinct by hash of the operation history. "
+      "Released iterators (exhausted or released early) stay in the history and are released again (second, third ... Release, as the "
+      "kvdb.Iterator contract allows) at drawn later points, while up to four other iterators - of the store, of snapshots, of a second "
+      "independent flushable store with fixed content (part flushed, part overlay) - are open; those must keep enumerating exactly what "
+      "the model says (class rerelease_of_old_iterator_while_another_is_live_and_later_stepped), and both stores must read as their "
+      "models at the end."),
     assumptions=[
         "a lazy flushable store's underlying store is the always-empty placeholder until its first Flush/InitUnderlyingDb, "
         "and the produced database from then on",
